@@ -117,16 +117,18 @@ def interpret(case, ctx):
         ctx.label("inconclusive:step-budget")
 
 
-def check_sequence(seq):
+def check_sequence(seq, observer="listener"):
     """notification sequence of one Host object -> (None, None) or (name of the first broken rule, index of the offending
     notification).  up/add and down must alternate (a removal in between does not count as coming up), nothing marks a
-    removed Host object up again, a host is removed once."""
+    removed Host object up again, a host is removed once.  on_add and on_up are different announcements: a policy is told
+    at the START of Cluster.on_add / on_up, so add next to up is accepted there; a listener is told on completion, where
+    on_up after on_add is a second 'came up' (on_add after on_up is the announcement of the addition and accepted)."""
     state, removed, last_u = None, False, None
     for i, kind in enumerate(seq):
         if kind in ("up", "add"):
             if removed:
                 return "%s-after-remove" % kind, i
-            if state == "U":
+            if state == "U" and (kind == last_u or (observer == "listener" and kind == "up")):
                 return "%s-after-%s" % (kind, last_u), i
             state, last_u = "U", kind
         elif kind == "down":
@@ -311,7 +313,7 @@ def _run(case, ctx, sim):
                 a, seq = per[id(hobj)]
                 if a == ignored_addr:
                     continue        # an ignored host is added without being marked up; a later UP event marks it up
-                bad, at = check_sequence(seq)
+                bad, at = check_sequence(seq, name)
                 if bad:
                     key = ["C25.notify", name, bad]
                     if name == "listener":
